@@ -13,7 +13,7 @@ import (
 var profiles = map[string]Profile{
 	"C01": {Name: "C01", MinOps: 15, MaxOps: 60, Keys: 10, EmptyVals: true, ObsEvery: 6,
 		Initials: []int64{-1, -1, 1, 7, 1 << 40},
-		W:        map[string]int{"set": 40, "rm": 18, "save": 12, "rollback": 3, "reopen": 4, "load": 3, "prune": 4, "lvfo": 2, "setnil": 2, "read": 10}},
+		W:        map[string]int{"set": 40, "rm": 18, "save": 12, "rollback": 3, "reopen": 4, "load": 3, "prune": 4, "lvfo": 5, "setnil": 2, "read": 10}},
 	// C02: hashes with read-only calls sprinkled anywhere, initial versions, reopen/prune/rollback points
 	"C02": {Name: "C02", MinOps: 15, MaxOps: 70, Keys: 12, EmptyVals: true, ObsEvery: 0, Touch: true,
 		Initials: []int64{-1, 1, 7, 10, 1 << 40},
